@@ -151,7 +151,7 @@ def private_scenarios(rng, n, two=True):
 
 def canonical_record():
     h = lazyexec.canonical_history()
-    calcs = ["neutron_sld", "atom_sld", "xray_sld", "f0", "volume", "activation", "d2o_match", "list",
+    calcs = ["neutron_sld", "atom_sld", "xray_sld", "f0", "volume", "activation", "activation_iaea", "d2o_match", "list",
              "composite", "magff", "emission_table"]
     hist = h + [{"op": "calc", "c": c} for c in calcs]
     st, res = forkrun.call_fresh("ptv.forkrun", "_run_history", (hist, {"full": True, "heap": False, "detail": False}))
